@@ -136,6 +136,8 @@ def run(ctx):
         one_case(res, label, frames, rng, tier, ans)
         if len(res.samples) < 3 and nontrivial:
             res.sample(dict(frames=[f.hex() for f in frames], expected=[list(o) for o in expected_by_statement(frames)]))
+    import c09_wire  # the protocol-level part: the same kind of sequences through a real AsyncProtocol, observed at the device
+    c09_wire.run_section(res, rng, tier, "C04")
     return res
 
 
@@ -143,6 +145,11 @@ def replay(ctx):
     f = ctx["replay"].get("failure") or ctx["replay"].get("first_difference")
     frames = [bytes.fromhex(x) for x in f["input"]["frames"]]
     res = Result("C04")
+    if f["input"].get("via") == "wire":
+        import c09_wire
+        res.rule = "replay of one recorded frame sequence through the protocol"
+        c09_wire.replay_case(res, f["input"], "C04")
+        return res
     res.rule = "replay of one recorded frame sequence under its recorded chunking"
     s = b"".join(frames)
     cuts = f["input"].get("cuts") or ()
